@@ -268,6 +268,10 @@ def check(case, rec: Rec) -> None:
 REQUIRED_LABELS = {"prompt": 0.3, "n>=2+index": 0.3, "duplicate-targets": 0.1}
 
 
+def sample_view(case):
+    return "\n".join(f"{l['text']!r} idx={l['idx']}" for l in case["lines"])
+
+
 def parts(tier):
     quick = tier == "quick"
     return [HypPart(name="open", check=check, strategy=_case,
